@@ -231,7 +231,7 @@ func c11World() *vfWorld {
 		users[k] = v
 	}
 	users[vfAutoUser] = "autobot-pw"
-	return vfNewWorld(vfOpts{CertBackends: []string{"IPCertificate"}, WebUIBackends: []string{"password"}, AutomationUsers: []string{vfAutoUser}, AutomationAdmins: []string{"autoadmin"}, AdminUsers: []string{"admin"}, Users: users})
+	return vfNewWorld(vfOpts{CertBackends: []string{"IPCertificate"}, WebUIBackends: []string{"password"}, AutomationUsers: []string{vfAutoUser, "otherbot"}, AutomationAdmins: []string{"autoadmin"}, AdminUsers: []string{"admin"}, Users: users})
 }
 
 func c11PubB64() string {
@@ -306,6 +306,21 @@ func c11Handler(w *vfWorld, blocks []c11Block, peers []string, c *vfeng.Ctx) {
 			if len(w.vfTLSFor(nl).VerifiedChains) == 0 {
 				c.Violate("C11|refreshed-does-not-verify|refreshRoleRequestingCertGenHandler", "refreshed certificate does not verify", pt)
 				continue
+			}
+		}
+		// a refresh that names ANOTHER automation identity in its body (the mint endpoint
+		// takes such a field): the certificate presented decides, not the body
+		if exp {
+			r2b := w.Do(vfReq{Method: "POST", Path: refreshRoleRequestingCertPath, Form: url.Values{"pubkey": {c11PubB64()}, "identity": {"otherbot"}, "requestor_netblock": {"0.0.0.0/0"}, "target_netblock": {"0.0.0.0/0"}}, TLS: tlsState, Remote: peer}.Build())
+			c.Eval(1)
+			if r2b.Code == 200 {
+				if nl, err := vfParseCertPEM(r2b.Body); err == nil {
+					g2, _ := certgen.ExtractIPNetsFromIPRestrictedX509(nl)
+					if nl.Subject.CommonName != vfAutoUser || fmt.Sprint(g2) != fmt.Sprint(want) {
+						c.Violate("C11|refresh-changes-identity-or-blocks|refreshRoleRequestingCertGenHandler|fields-in-the-request-body", fmt.Sprintf("a refresh whose body names identity=otherbot and 0.0.0.0/0 yielded cn=%q blocks=%v (certificate presented: cn=%q blocks=%v)", nl.Subject.CommonName, g2, vfAutoUser, want), pt)
+						continue
+					}
+				}
 			}
 		}
 		// certificate endpoint authenticated with the automation certificate
